@@ -127,6 +127,69 @@ def run(ctx):
                     viol.append({"what": "instance count under a cap is not min(cap, class size)", "class": cl[0], "reported": sh['n'],
                                  "cap": k, "class_size": sizes.get(cl[0], 0), **pipeline.case_json(g, cfg_c)})
             cap_cases.append((g, cfg_c))
+    # the options through other deliveries than the raw string: an rdflib Graph, a file, a zip archive whose members are NOT in
+    # alphabetical order (the document order the cap counts in is the order of the archive)
+    import tempfile, os, zipfile, shutil, rdflib
+    from shexer.shaper import Shaper
+    from shexer import consts as C
+    import impl, shex_text
+    stats["delivery_pairs"] = 0
+    tdir = tempfile.mkdtemp(prefix="verif_c16_")
+    try:
+        for i in range(30 if ctx.tier == "quick" else 400):
+            g = [t for t in deep_graph(rng) if t[0][0] == 'I' and t[2][0] != 'B']
+            if not g:
+                continue
+            cfg = gen.gen_cfg(rng, g, presentation=False, allow_cap=False, allow_ignore=False)
+            cfg.update(report='mixed', disable_comments=False, inst_prop=RDF_TYPE)
+            cfg.pop('inst_prop_spelled', None)
+            kw = impl.shaper_kwargs(cfg)
+            th = cfg['th'][0] / cfg['th'][1]
+            def sig_of(**src):
+                try:
+                    return shape_sig(shex_text.parse(Shaper(**src, **kw).shex_graph(string_output=True, acceptance_threshold=th)))
+                except Exception as e:
+                    return "EXC %s %s" % (type(e).__name__, str(e)[:100])
+            # (a) ignored namespaces, graph handed over as an rdflib Graph and as a file
+            ns = rng.choice(NS_SETS)
+            if not any(direct_child(RDF_TYPE, x) for x in ns):
+                kw['namespaces_to_ignore'] = ns
+                keep = [(s_, p_, o_) for s_, p_, o_ in g if not any(direct_child(p_, x) for x in ns)]
+                rg = rdflib.Graph(); rg.parse(data=to_nt(g), format='nt')
+                rk = rdflib.Graph(); rk.parse(data=to_nt(keep), format='nt')
+                fp = os.path.join(tdir, "g%d.nt" % i); open(fp, "w").write(to_nt(g))
+                a1 = sig_of(rdflib_graph=rg)
+                a2 = sig_of(graph_file_input=fp, input_format=C.NT)
+                kw['namespaces_to_ignore'] = None
+                b1 = sig_of(rdflib_graph=rk)
+                b2 = sig_of(raw_graph=to_nt(keep), input_format=C.NT)
+                stats["delivery_pairs"] += 2
+                if a1 != b1:
+                    viol.append({"what": "namespaces_to_ignore with an rdflib Graph differs from deleting the ignored predicates", "ignored": ns,
+                                 "with_option": repr(a1)[:500], "on_filtered_input": repr(b1)[:500], **pipeline.case_json(g, cfg)})
+                if a2 != b2:
+                    viol.append({"what": "namespaces_to_ignore with a graph file differs from deleting the ignored predicates", "ignored": ns,
+                                 "with_option": repr(a2)[:500], "on_filtered_input": repr(b2)[:500], **pipeline.case_json(g, cfg)})
+            kw['namespaces_to_ignore'] = None
+            # (b) cap, graph handed over as a zip archive with members stored out of alphabetical order
+            sizes = gen.class_sizes(g, RDF_TYPE)
+            if sizes and max(sizes.values()) >= 2:
+                lines_ = to_nt(g).strip().split("\n")
+                cut = rng.randint(1, len(lines_) - 1) if len(lines_) > 1 else 1
+                zp = os.path.join(tdir, "z%d.zip" % i)
+                with zipfile.ZipFile(zp, "w") as z:
+                    z.writestr("people_2024.nt", "\n".join(lines_[:cut]) + "\n")
+                    z.writestr("people_2023.nt", "\n".join(lines_[cut:]) + "\n")
+                kw['instances_cap'] = rng.randint(1, max(sizes.values()) - 1)
+                c1 = sig_of(graph_file_input=zp, input_format=C.NT, compression_mode=C.ZIP)
+                c2 = sig_of(raw_graph="\n".join(lines_) + "\n", input_format=C.NT)
+                stats["delivery_pairs"] += 1
+                if c1 != c2:
+                    viol.append({"what": "instances_cap=%d on a zip archive (members in archive order) differs from the same cap on the concatenated document" % kw['instances_cap'],
+                                 "zip": repr(c1)[:500], "concatenated": repr(c2)[:500], **pipeline.case_json(g, cfg)})
+                kw['instances_cap'] = -1
+    finally:
+        shutil.rmtree(tdir, ignore_errors=True)
     # figures under a cap are exact for the first k instances: the Lean Spec on the restricted selection
     if ctx.spec_ok and cap_cases:
         sub = random.Random(ctx.seed).sample(cap_cases, min(len(cap_cases), 300 if ctx.tier == "quick" else 3000))
@@ -140,4 +203,5 @@ def run(ctx):
                            "ignored namespaces: option on G vs no option on G without the predicates that are direct children of an ignored "
                            "namespace (nested namespaces in both orders, predicates one level deeper, a namespace that is a string prefix only); "
                            "cap: caps 1, random, max class size, max+1 against the uncapped run and against the Lean Spec with the selection "
-                           "restricted to the first k instances; non-trivial = the option really removes something", DEPS)
+                           "restricted to the first k instances; the ignore option through an rdflib Graph and a file, the cap through a zip archive with "
+                           "members out of alphabetical order; non-trivial = the option really removes something", DEPS)
